@@ -1,6 +1,7 @@
 import OrixModel
 import OrixGen.Kernels
 import Driver.Proto
+import Driver.Ops.KernConv
 /-
 op `kern <g|m> <name> <i|f> <args…>`: run a generated (g) or hand-written model (m) scalar kernel on
 Int / Float.  Unknown or ill-formed requests answer `!err …` (never a default value).
@@ -37,7 +38,7 @@ def modelRegistry {α : Type} [Scalar α] : List (String × (List α → Option 
     | _ => none),
   ("ract", fun xs => match xs with
     | [a, b, c, d, i, x, y, z] => some (Rot.act ⟨⟨a, b, c, d⟩, flag i⟩ ⟨x, y, z⟩).toList | _ => none)
-]
+] ++ KernConv.registry
 
 def lookup {β} (k : String) : List (String × β) → Option β
   | [] => none
